@@ -100,8 +100,8 @@ func c02Specs(tier string) []*h.SeqSpec {
 		}})
 		if store == "dir" {
 			ops = append(ops, h.Op{Name: "restart", Do: func(w *h.World) []h.Violation {
-				if err := w.Reopen(); err != nil {
-					return []h.Violation{h.V("restart", "close-error", "Close returned %v", err)}
+				if vs := closeViolation(w.Reopen()); vs != nil {
+					return vs
 				}
 				regM(w).Repo(repo).AfterCollection(f)
 				return nil
@@ -213,7 +213,7 @@ func init() {
 		Rule: "breadth-first search over all histories (bounded depth) of blob pushes (0 and 4 bytes), manifest pushes by tag / digest (OCI and Docker image and index types), re-pushes, tag moves, bodies at and beyond Manifest.Limit with known and unknown Content-Length, tag / digest / blob deletes and restart, both stores; " +
 			"in every distinct state every item is read by digest and tag with GET and HEAD, with all 15 Accept subsets that contain its type and all byte ranges of a 4 byte blob, and compared with the model; non-trivial = a manifest or extra blob present",
 		Assume: []string{"Manifest.Limit = length of the longest valid manifest of the universe + 2", "absence after a delete is not part of this property (C03 demands it for tags and digests)", "restart on the directory store collects with the default policy: artifacts whose subject is gone are left open"},
-		Specs:  c02Specs,
+		Specs:  func(tier string) []*h.SeqSpec { return append(c02Specs(tier), nestedSpecs(tier)...) },
 		Budget: func(tier string) time.Duration {
 			if tier == "thorough" {
 				return 12 * time.Minute
